@@ -226,4 +226,16 @@ example : classes compKey [[⟨8, [97]⟩, ⟨0x32, [0, 1]⟩], [⟨8, [97]⟩, 
 example : classes compKey [[⟨8, [51, 50, 61, 75]⟩], [⟨32, [75]⟩], [⟨8, [51, 50, 61, 75]⟩]] = [0, 1, 0] := by decide
 example : prefixDepth compKey [[⟨8, [97]⟩, ⟨8, [98]⟩], [⟨8, [97]⟩, ⟨0x32, [1]⟩, ⟨8, [99]⟩]] [⟨8, [97]⟩, ⟨0x32, [1]⟩, ⟨8, [100]⟩] = 2 := by decide
 
+/-- with insertions, removals and lookups in any order a TLV-keyed table behaves, operation by operation, like
+    the set of names it was given judged by equality (so after a removal exactly the names Equal to the removed
+    one are gone, and a lookup finds a name iff an Equal one is held) -/
+theorem table_with_removal_agrees_with_equality (ops : List TOp)
+    (h : ∀ op ∈ ops, ∀ c ∈ op.name, c.typ < 2 ^ 64 ∧ c.val.length < 2 ^ 64) :
+    tabrRun compKey [] ops = tabrRun id [] ops :=
+  tabrRun_map compKey (fun c => c.typ < 2 ^ 64 ∧ c.val.length < 2 ^ 64) table_key_injective ops [] (by simp) h
+
+example : tabrRun compKey [] [.ins [⟨8, [97]⟩, ⟨8, [99]⟩], .ins [⟨8, [97]⟩, ⟨8, [98]⟩, ⟨8, [99]⟩],
+    .rem [⟨8, [97]⟩, ⟨8, [98]⟩, ⟨8, [99]⟩], .has [⟨8, [97]⟩, ⟨8, [99]⟩], .has [⟨8, [97]⟩, ⟨8, [98]⟩, ⟨8, [99]⟩]]
+    = ['n', 'n', 'r', '1', '0'] := by decide
+
 end Ndn.C14
